@@ -21,6 +21,45 @@ Proof.
   cbn [flat_map app with_escape map]. rewrite N.eqb_refl, IH. reflexivity.
 Qed.
 
+(* The shell (apply_escapes + to_pattern_chars) reads the unquoted result of an
+   expansion like with_escape does, except that it keeps a backslash at the
+   very end as an ordinary character where with_escape drops it. *)
+Definition unq (c : N) : achar := mkAchar c false false.
+
+Lemma expansion_chars_like_with_escape_len : forall n s, length s <= n ->
+  to_pattern_chars (apply_escapes_from false (map unq s)) =
+  with_escape s ++ (if dangling_bslash s then [Normal c_bslash] else []).
+Proof.
+  induction n as [|n IH]; intros s Hn.
+  - destruct s; [reflexivity|cbn in Hn; lia].
+  - destruct s as [|c r]; [reflexivity|]. cbn [length] in Hn.
+    cbn [map apply_escapes_from unq with_escape dangling_bslash a_value a_quoted a_quoting].
+    destruct r as [|d r'].
+    + cbn [map]. destruct (N.eqb c c_bslash) eqn:E.
+      * apply N.eqb_eq in E. subst c. reflexivity.
+      * reflexivity.
+    + cbn [map]. destruct (N.eqb c c_bslash) eqn:E; cbn [negb andb].
+      * cbn [to_pattern_chars a_quoting].
+        cbn [apply_escapes_from unq a_value a_quoted a_quoting].
+        assert (Hrec : to_pattern_chars (apply_escapes_from false (map unq r')) =
+                       with_escape r' ++ (if dangling_bslash r' then [Normal c_bslash] else []))
+          by (apply IH; cbn [length] in Hn; lia).
+        destruct r' as [|e r''].
+        -- reflexivity.
+        -- cbn [map]. cbn [negb andb]. rewrite andb_false_r.
+           cbn [to_pattern_chars a_quoting a_quoted a_value]. cbn [map] in Hrec. rewrite Hrec. reflexivity.
+      * cbn [to_pattern_chars a_quoting a_quoted a_value].
+        assert (Hrec : to_pattern_chars (apply_escapes_from false (map unq (d :: r'))) =
+                       with_escape (d :: r') ++ (if dangling_bslash (d :: r') then [Normal c_bslash] else []))
+          by (apply IH; lia).
+        cbn [map] in Hrec. rewrite Hrec. reflexivity.
+Qed.
+
+Lemma expansion_chars_like_with_escape s :
+  to_pattern_chars (apply_escapes (map unq s)) =
+  with_escape s ++ (if dangling_bslash s then [Normal c_bslash] else []).
+Proof. apply (expansion_chars_like_with_escape_len (length s)). lia. Qed.
+
 (* compilation has a definite outcome whenever the emitted regex is in the
    modelled syntax (never "unsupported", never out of fuel) *)
 Lemma compile_total cfg p a :
@@ -43,17 +82,18 @@ Definition ex_ast : ast :=
   [ABracket (mkBracket false [IRange (BChar 97) (BChar 99)]); AAnyString; AChar 120]%N.
 
 (* [[.ch.]c]h : a two-character collating symbol *)
-Definition f8_pat : list pchar := without_escape [91; 91; 46; 99; 104; 46; 93; 99; 93; 104]%N.
-Definition f8_ast : ast :=
+Definition f31_pat : list pchar := without_escape [91; 91; 46; 99; 104; 46; 93; 99; 93; 104]%N.
+Definition f31_ast : ast :=
   [ABracket (mkBracket false [IAtom (BColl [99; 104]); IAtom (BChar 99)]); AChar 104]%N.
 
 (* [[.a.][.ab.]] *)
-Definition f8b_pat : list pchar :=
+Definition f31b_pat : list pchar :=
   without_escape [91; 91; 46; 97; 46; 93; 91; 46; 97; 98; 46; 93; 93]%N.
-Definition f8b_ast : ast :=
+Definition f31b_ast : ast :=
   [ABracket (mkBracket false [IAtom (BColl [97]); IAtom (BColl [97; 98])])]%N.
 
-(* [![.é.]a] and [![.é.]] : a non-ASCII collating symbol in a complement *)
+(* [![.é.]a] and [![.é.]] : a non-ASCII collating symbol in a complement
+   (wrong before the repair of matches_multi_character; ordinary now) *)
 Definition f9_pat : list pchar := without_escape [91; 33; 91; 46; 233; 46; 93; 97; 93]%N.
 Definition f9_ast : ast :=
   [ABracket (mkBracket true [IAtom (BColl [233]); IAtom (BChar 97)])]%N.
@@ -93,6 +133,32 @@ Example ex_case_items :
      ([without_escape [42]%N], CBreak)] = Some [1].
 Proof. vm_compute. reflexivity. Qed.
 
+Example ex_item_parsed :
+  Forall2 (fun it sit => item_parsed (fst it) (fst sit) /\ snd it = snd sit)
+          [([ex_pat; without_escape [42]%N], CFallThrough); ([f31_pat], CBreak)]
+          [([ex_ast; [AAnyString]], CFallThrough); ([f31_ast], CBreak)].
+Proof.
+  repeat constructor; vm_compute; reflexivity.
+Qed.
+
+(* a single non-ASCII collating symbol inside a complemented bracket is an
+   ordinary member (the inputs of the repaired defect) *)
+Example ex_nonascii_complement :
+  parse_pattern f9_pat = Some f9_ast /\ closed_complements f9_ast = true /\ single_width f9_ast = true /\
+  (exists b, compile case_config f9_pat = COk b /\
+             pat_is_match case_config b [233]%N = false /\ pat_is_match case_config b [120]%N = true) /\
+  (exists b, compile case_config f9b_pat = COk b /\ pat_is_match case_config b [120]%N = true).
+Proof.
+  split; [vm_compute; reflexivity|]. split; [reflexivity|]. split; [reflexivity|].
+  split; eexists; vm_compute; repeat split; reflexivity.
+Qed.
+
+(* a multi-character collating symbol inside a complemented bracket with
+   another member: inside the domain of the `case` theorem *)
+Example ex_closed_complement_multi :
+  closed_complements [ABracket (mkBracket true [IAtom (BColl [99; 104]); IAtom (BChar 97)])]%N = true.
+Proof. reflexivity. Qed.
+
 Example ex_unclosed : ~ In (Normal c_rbr) (without_escape [97; 45; 98]%N).
 Proof. cbn. intros [H|[H|[H|[]]]]; discriminate. Qed.
 
@@ -102,56 +168,34 @@ Example ex_quoted :
 Proof. repeat constructor. Qed.
 
 (* ------------------------------------------------------------------ *)
-(* F8: with a collating symbol of two characters, the prefix forms need
-   not remove the shortest / longest matching prefix                     *)
+(* F31 (open finding): with a collating symbol of two or more characters the
+   prefix forms need not remove the shortest / longest matching prefix      *)
 
-Lemma f8_prefix_shortest_refuted :
+Lemma f31_prefix_shortest_refuted :
   exists p a v out,
     parse_pattern p = Some a /\ trim_model Prefix Shortest p v = Some out /\
     ~ TrimSpec Prefix Shortest a v out.
 Proof.
-  exists f8_pat, f8_ast, [99; 104; 104]%N, (@nil N).
+  exists f31_pat, f31_ast, [99; 104; 104]%N, (@nil N).
   split; [vm_compute; reflexivity|]. split; [vm_compute; reflexivity|].
-  assert (H2 : PrefixMatch f8_ast [99; 104; 104]%N 2).
+  assert (H2 : PrefixMatch f31_ast [99; 104; 104]%N 2).
   { split; [cbn; lia|]. apply matches_b_iff. vm_compute. reflexivity. }
   cbn [TrimSpec]. intros [(n & [Hn Hmin] & Hout)|[Hno _]].
   - specialize (Hmin 2 H2). destruct n as [|[|[|n]]]; try lia; discriminate.
   - exact (Hno 2 H2).
 Qed.
 
-Lemma f8_prefix_longest_refuted :
+Lemma f31_prefix_longest_refuted :
   exists p a v out,
     parse_pattern p = Some a /\ trim_model Prefix Longest p v = Some out /\
     ~ TrimSpec Prefix Longest a v out.
 Proof.
-  exists f8b_pat, f8b_ast, [97; 98]%N, [98]%N.
+  exists f31b_pat, f31b_ast, [97; 98]%N, [98]%N.
   split; [vm_compute; reflexivity|]. split; [vm_compute; reflexivity|].
-  assert (H2 : PrefixMatch f8b_ast [97; 98]%N 2).
+  assert (H2 : PrefixMatch f31b_ast [97; 98]%N 2).
   { split; [cbn; lia|]. apply matches_b_iff. vm_compute. reflexivity. }
   cbn [TrimSpec]. intros [(n & [[Hn1 _] Hmax] & Hout)|[Hno _]].
   - specialize (Hmax 2 H2). cbn [length] in Hn1. assert (n = 2) by lia. subst n. discriminate.
   - exact (Hno 2 H2).
 Qed.
 
-(* F9: a collating symbol that is one non-ASCII character is dropped from a
-   complemented bracket expression, or leaves a broken regex              *)
-
-Lemma f9_complement_refuted :
-  exists p a b s,
-    parse_pattern p = Some a /\ compile case_config p = COk b /\
-    pat_is_match case_config b s = true /\ ~ Matches a s.
-Proof.
-  exists f9_pat, f9_ast. eexists. exists [233]%N.
-  split; [vm_compute; reflexivity|]. split; [vm_compute; reflexivity|].
-  split; [vm_compute; reflexivity|].
-  intros H. apply matches_b_iff in H. vm_compute in H. discriminate.
-Qed.
-
-Lemma f9_broken_regex_refuted :
-  exists p a s,
-    parse_pattern p = Some a /\ compile case_config p = CErr ERegex /\ Matches a s.
-Proof.
-  exists f9b_pat, f9b_ast, [120]%N.
-  split; [vm_compute; reflexivity|]. split; [vm_compute; reflexivity|].
-  apply matches_b_iff. vm_compute. reflexivity.
-Qed.
